@@ -8,7 +8,9 @@ Scenario sub-language (one op per line, a strict subset of notes/dsim.md):
   topic <n> <participant> <topic name> ki|ni [listener=<mask>]
   writer <n> <publisher> <topic> reliability=reliable|best_effort [deadline=<ns>|inf] history=keep_all [listener=<mask>]
   reader <n> <subscriber> <topic> reliability=.. [deadline=..] history=keep_all [max_samples=<k> max_spi=<k>] [listener=<mask>]
-  listeners <entity> <mask> [off]        write <writer> 1 <value>        advance <ns>
+  listeners <entity> <mask> [off]   (= set_listener at ANY time: `off` removes the listener, the mask is given either way)
+  coalesce-next 1 DATA user              (the next two user DATA datagrams travel as one RTPS message: one processing pass, two changes)
+  write <writer> 1 <value>        advance <ns>
   log        matched <writer|reader>        read <reader>        status <topic> inconsistent_topic
 
 Canonical answers (the implementation's answers are rewritten into this form by `canon`, the model prints it directly):
@@ -161,6 +163,9 @@ def oracle(case, out):
     seen_fields = {}      # (cb, src, fields) -> count, over the whole case
     got = {}              # (cb, src) -> owners since the start
     n_incons = {}
+    snap = None           # listener slots in force at the latest `log` (= at the events it recorded, by construction of the cases)
+    since_probe = {}      # (cb, entity) -> callbacks logged since the previous `matched` probe of that entity
+    prev_matched = {}     # entity -> matched count at its previous probe
     for l, o in zip(case.lines, out):
         t = l.split()
         if not t:
@@ -170,12 +175,30 @@ def oracle(case, out):
             return viol
         if t[0] in CREATE and is_ok(o) and len(o.split()) == 2:
             names[o.split()[1]] = t[1]
+        if t[0] == "matched" and is_ok(o) and t[1] in sh.kind:
+            # O3a (also with set_listener steps): every NEW match since the previous probe produced exactly one callback at the
+            # receiver the rule names for the configuration in force when it was logged; none is lost at a listener-less level
+            e, n = t[1], int(o.split()[1])
+            cb = "on_publication_matched" if sh.kind[e] == "writer" else "on_subscription_matched"
+            new = n - prev_matched.get(e, 0)
+            prev_matched[e] = n
+            have = since_probe.pop((cb, e), 0)
+            if new > 0 and snap is not None:
+                saved, sh.slot = sh.slot, snap
+                want, _ = spec_receiver(sh, cb, e)
+                installed = want is not None and sh.slot[want][0]
+                sh.slot = saved
+                if installed and have != new:
+                    viol.append({"what": f"{e} has {new} new matched endpoint(s); the rule names {want}.{cb}; {have} callback(s) were made",
+                                 "op": l, "cause": "matched-callback-count"})
         if t[0] == "log" and is_ok(o):
+            snap = {k: (v[0], set(v[1])) for k, v in sh.slot.items()}
             for it in parse_bar_list(o):
                 f = it.split()
                 owner, cb = f[0].split(".")
                 srch = next((x[4:] for x in f if x.startswith("src=")), "?")
                 src = names.get(srch, srch)
+                since_probe[(cb, src)] = since_probe.get((cb, src), 0) + 1
                 fields = " ".join(x for x in f[1:] if not x.startswith("t=") and not x.startswith("src="))
                 want, wcb = spec_receiver(sh, cb, src)
                 if (owner, cb) != (want, wcb):
@@ -218,13 +241,6 @@ def oracle(case, out):
                 if t[0] in ("read", "status") else i
             if last_log < last_event:
                 continue
-            if t[0] == "matched" and is_ok(o) and int(o.split()[1]) > 0:
-                e = t[1]
-                cb = "on_publication_matched" if sh.kind[e] == "writer" else "on_subscription_matched"
-                want, wcb = spec_receiver(sh, cb, e)
-                if want is not None and sh.slot[want][0] and len(got.get((cb, e), [])) != int(o.split()[1]):
-                    viol.append({"what": f"{e} has {o.split()[1]} matched endpoint(s) but {want} received {len(got.get((cb, e), []))} {cb} callback(s)",
-                                 "op": l, "cause": "matched-callback-count"})
             if t[0] == "status" and is_ok(o) and " total=0 " not in o + " ":
                 tp = t[1]
                 want, wcb = spec_receiver(sh, "on_inconsistent_topic", tp)
@@ -245,7 +261,7 @@ def oracle(case, out):
 
 # ----------------------------------------------------------------------------- generator
 
-EVENTS = ["matched", "incompatible", "inconsistent", "data", "rejected", "deadline"]
+EVENTS = ["matched", "incompatible", "inconsistent", "data", "rejected", "deadline", "burst"]
 EVENT_STATUSES = {
     "matched": ["publication_matched", "subscription_matched"],
     "incompatible": ["offered_incompatible_qos", "requested_incompatible_qos"],
@@ -253,6 +269,7 @@ EVENT_STATUSES = {
     "data": ["data_available", "data_on_readers"],
     "rejected": ["sample_rejected", "data_available"],
     "deadline": ["offered_deadline_missed", "requested_deadline_missed"],
+    "burst": ["data_available", "data_on_readers"],
 }
 
 
@@ -270,15 +287,19 @@ def gen_mask(r, focus):
     return set(x for x in STATUSES if r.chance(1, 3)) | (set([r.choice(focus)]) if r.chance(1, 2) else set())
 
 
-def scenario(r, event, place, masks=None, same_participant=False, late=None, nil=None, second_writer=False):
+def scenario(r, event, place, masks=None, same_participant=False, late=None, nil=None, second_writer=False, relisten=None):
     """place: dict level -> bool (listener installed at creation) for the six levels
        w pub P1 r sub P2 (+ t1 t2 for topics); masks: dict level -> set; late: set of levels whose listener is
-       installed by a `listeners` op after creation; nil: levels that get `listeners <e> <mask> off`"""
+       installed by a `listeners` op after creation; nil: levels that get `listeners <e> <mask> off`;
+       relisten: level -> (mask, off): the entity is created WITH its listener and later reconfigured by set_listener
+       (groups / participants before the endpoints exist, the first endpoint before the second one is created, the second
+       endpoint after the match) — the events that follow must obey the NEW configuration"""
     focus = EVENT_STATUSES[event]
     lv = ["P1", "P2", "pub", "sub", "w", "r", "t1", "t2"]
     masks = masks or {}
     late = late or set()
     nil = nil or set()
+    relisten = relisten or {}
     m = {x: masks.get(x, gen_mask(r, focus)) for x in lv}
 
     def lopt(x):
@@ -336,8 +357,20 @@ def scenario(r, event, place, masks=None, same_participant=False, late=None, nil
     # for creation-time events the `listeners` ops of the groups / participants must come before the endpoints exist
     pre_groups = [x for x in pre if x.split()[1] not in ("w", "r")]
     pre_ends = [x for x in pre if x.split()[1] in ("w", "r")]
+
+    def relisten_op(x):
+        mk, off = relisten[x]
+        return f"listeners {x} {fmt_mask(mk)}" + (" off" if off else "")
+    pre_groups += [relisten_op(x) for x in ("P1", "P2", "pub", "sub") if x in relisten and place.get(x)
+                   and x not in late and x not in nil and not (same_participant and x == "P2")]
+    first, second = ("r", "w") if first_reader else ("w", "r")
     lines += pre_groups
-    lines += [rl, wl] if first_reader else [wl, rl]
+    lines.append(rl if first_reader else wl)
+    if first in relisten and place.get(first) and first not in late and first not in nil:
+        lines.append(relisten_op(first))
+    lines.append(wl if first_reader else rl)
+    if second in relisten and place.get(second) and second not in late and second not in nil:
+        pre_ends.append(relisten_op(second))
     if second_writer:
         lines.append(f"writer w2 pub t1 {wq}")
     lines.append("log")
@@ -348,7 +381,12 @@ def scenario(r, event, place, masks=None, same_participant=False, late=None, nil
         lines += ["log", x]
     if pre_ends:
         lines.append("log")
-    if event in ("data", "rejected"):
+    if event == "burst":
+        # several new-data changes in ONE processing pass: two DATA datagrams coalesced into one RTPS message
+        lines += ["coalesce-next 1 DATA user", "write w 1 1", "log", "write w 1 2", "log", "read r"]
+        if r.chance(1, 2):
+            lines += ["coalesce-next 1 DATA user", "write w 1 3", "write w 1 4", "log", "write w 1 5", "log", "read r"]
+    elif event in ("data", "rejected"):
         n = r.range(1, 3)
         for i in range(n):
             lines.append(f"write w 1 {i}")
@@ -384,6 +422,23 @@ def corpus():
     on the writer side and the reader side at once; plus the exemplars of the known findings"""
     from vlib.core import SplitMix64
     cs = []
+    # seed C33_c: DATA_ON_READERS on the subscriber, DATA_AVAILABLE on the reader, two samples in one pass: BOTH are data-on-readers
+    cs.append(Case(["participant P1", "participant P2 listener=data_available", "topic t1 P1 T ki", "topic t2 P2 T ki",
+                    "publisher pub P1", "subscriber sub P2 listener=data_on_readers",
+                    "writer w pub t1 reliability=reliable history=keep_all",
+                    "reader r sub t2 reliability=reliable history=keep_all listener=data_available", "log",
+                    "coalesce-next 1 DATA user", "write w 1 1", "log", "write w 1 2", "log", "read r", "write w 1 3", "log"],
+                   {"event": "burst", "exemplar": "seed C33_c"}))
+    # seed C33_d: the writer's listener is removed by set_listener(None, NO_STATUS); the match must reach the publisher's listener,
+    # then (publisher listener removed too) the participant's
+    cs.append(Case(["participant P1 listener=all", "participant P2", "topic t1 P1 T ki", "topic t2 P2 T ki",
+                    "publisher pub P1 listener=all", "subscriber sub P2",
+                    "writer w pub t1 reliability=reliable history=keep_all listener=publication_matched,offered_deadline_missed,offered_incompatible_qos",
+                    "listeners w none off",
+                    "reader r sub t2 reliability=reliable history=keep_all", "log", "matched w",
+                    "listeners pub none off",
+                    "reader r2 sub t2 reliability=reliable history=keep_all", "log", "matched w"],
+                   {"event": "matched", "exemplar": "seed C33_d"}))
     for ev in EVENTS:
         for bits in range(8):
             r = SplitMix64(1000 + bits)
@@ -425,8 +480,22 @@ def gen_case(r):
              "t1": r.chance(1, 2), "t2": r.chance(1, 2)}
     late = set(x for x in ("w", "r", "pub", "sub", "P1", "P2") if place.get(x) and r.chance(1, 6))
     nil = set(x for x in ("w", "r", "pub", "sub", "P1", "P2") if not place.get(x) and r.chance(1, 8))
-    return Case(scenario(r, ev, place, None, same_participant=r.chance(1, 4), late=late, nil=nil,
-                         second_writer=r.chance(1, 6)), {"event": ev, "place": bits})
+    relisten = {}
+    for x in ("w", "r", "pub", "sub", "P1", "P2"):
+        if place.get(x) and x not in late and r.chance(1, 4):
+            c = r.below(4)
+            relisten[x] = (set(), True) if c == 0 else (gen_mask(r, EVENT_STATUSES[ev]), c == 1)
+    masks = None
+    if ev == "burst":
+        place["sub"] = place.get("sub") or r.chance(2, 3)
+        place["r"] = place.get("r") or r.chance(2, 3)
+        masks = {}
+        if r.chance(2, 3):
+            masks["sub"] = gen_mask(r, ["data_on_readers"]) | {"data_on_readers"}
+        if r.chance(2, 3):
+            masks["r"] = gen_mask(r, ["data_available"]) | {"data_available"}
+    return Case(scenario(r, ev, place, masks, same_participant=r.chance(1, 4), late=late, nil=nil,
+                         second_writer=r.chance(1, 6) and ev != "burst", relisten=relisten), {"event": ev, "place": bits})
 
 
 # ----------------------------------------------------------------------------- differential run with canonicalisation
